@@ -3,7 +3,7 @@
    frame builders, hashes, length table and constants are generated from /repo. *)
 From J1939 Require Import Base CodecGlue Model21 Model22.
 From J1939.gen Require Import Codec Tp21Gen CaGen Tp22Gen.
-From J1939P Require Import CodecProofs Flat Tp21Seg Tp21Resp TimeoutProofs MpgProofs PoolProofs Tp22Proofs Tp22Resp ConserveProofs.
+From J1939P Require Import CodecProofs Flat Tp21Seg Tp21Resp TimeoutProofs MpgProofs PoolProofs Tp22Proofs Tp22Resp ConserveProofs FrameLocal22.
 
 (* T02.1: segmentation into 60-byte segments loses nothing, for EVERY payload *)
 Theorem C02_segments_reassemble : forall d,
@@ -126,3 +126,19 @@ Theorem C02_originator_frame_shape : forall src dst s k seg fr seg',
               f_id fr = tp22_dt_id src dst.
 Proof. exact dt_frame_shape. Qed.
 Print Assumptions C02_originator_frame_shape.
+
+(* concurrency: an FD transport frame touches at most the receive session (session, sa, dest) and the send session
+   (session, dest, sa); all other sessions are exactly as before — concurrent transfers (up to the 8 + 4 of the pools,
+   in both directions) proceed as if each were alone *)
+Theorem C02_cm_frame_touches_one_session : forall prio sa dest data now m,
+  let s := tp22_cm_session_num data in
+  ends22 (touches22 (Some (tp22_hash s sa dest)) (Some (tp22_hash s dest sa)) m) (process_tp_cm22 prio sa dest data now m).
+Proof. exact fd_cm_touches_one. Qed.
+Print Assumptions C02_cm_frame_touches_one_session.
+Theorem C02_dt_frame_touches_one_session : forall prio sa dest data now m s' sa' dest',
+  0 <= sa < 256 -> 0 <= dest < 256 -> 0 <= s' < 16 -> 0 <= sa' < 256 -> 0 <= dest' < 256 ->
+  (s', sa', dest') <> (tp22_dt_session_num data, sa, dest) ->
+  tget (f_rcv (fnode22 (process_tp_dt22 prio sa dest data now m))) (tp22_hash s' sa' dest') = tget (f_rcv m) (tp22_hash s' sa' dest') /\
+  (forall h, tget (f_snd (fnode22 (process_tp_dt22 prio sa dest data now m))) h = tget (f_snd m) h).
+Proof. exact fd_other_sessions_untouched_by_dt. Qed.
+Print Assumptions C02_dt_frame_touches_one_session.
